@@ -18,6 +18,7 @@ import (
 	"strconv"
 	"strings"
 	"testing"
+	"time"
 	"unicode/utf8"
 
 	"mvdan.cc/sh/v3/expand"
@@ -567,7 +568,7 @@ func (o outcome) String() string {
 }
 
 func runInterp(script, dir string) outcome {
-	r := oracle.RunInterp(script, oracle.InterpOpts{Dir: dir})
+	r := oracle.RunInterp(script, oracle.InterpOpts{Dir: dir, Timeout: 60 * time.Second})
 	o := outcome{out: string(r.Stdout), status: r.Status}
 	switch {
 	case r.ParseErr != nil:
@@ -674,7 +675,7 @@ func check(c Case) (res vh.Result) {
 	if len(subs) == 0 {
 		return vh.Result{Skipped: true}
 	}
-	bres, err := oracle.Batch(scripts, oracle.Opts{Dir: dir})
+	bres, err := oracle.Batch(scripts, oracle.Opts{Dir: dir, Timeout: batchTimeout})
 	if err != nil {
 		return vh.Result{Skipped: true, Classes: []string{"infra:batch"}}
 	}
@@ -732,3 +733,8 @@ func equalFields(a, b []string) bool {
 var prop = vh.Prop[Case]{ID: "C22", Gen: gen, Check: check}
 
 func TestC22(t *testing.T) { vh.Run(t, prop) }
+
+// batchTimeout bounds one bash process evaluating a whole batch. It is
+// generous because a loaded machine makes every fork slow; sub-cases left
+// without a result are counted as infra:batch-aborted, never as a pass.
+const batchTimeout = 120 * time.Second
